@@ -269,7 +269,19 @@ fn replay(path: &str) -> ! {
     let w = &j["witness"];
     let mut bad = [false; 2];
     for round in 0..2 {
-        if w["engine"] == "run-typed" {
+        if w["engine"] == "run-lexi" {
+            let x = unhex(w["input"].as_str().unwrap());
+            let mut m = mc::ifaces::Lexi;
+            let o = if w["cap8"] == true {
+                let mut wr: heapless::Vec<u8, 8> = heapless::Vec::new();
+                run_on(&mut m, &x, &mut wr, Pattern::NONE)
+            } else {
+                let mut wr = RecW::unbounded();
+                run_on(&mut m, &x, &mut wr, Pattern::NONE)
+            };
+            println!("round {round}: run(\"{}\") on Lexi -> {:?}", show(&x), o);
+            bad[round] = judge_run(&o).is_some();
+        } else if w["engine"] == "run-typed" {
             let x = unhex(w["input"].as_str().unwrap());
             let mut m = mc::ifaces::Typ;
             let mut wr: heapless::Vec<u8, 8> = heapless::Vec::new();
@@ -330,8 +342,11 @@ fn main() {
         20,
         |p, k| {
             let x = lex::case_of(SIGMA, lex_len, p, k);
-            println!("HANG engine=run input=\"{}\" hex={} (no progress for 20 s)", show(&x), hex(&x));
-            std::process::exit(3);
+            let x2 = x.clone();
+            if par::confirm_hang(move || { run_case(&x2, Wk::Heapless(8)); }, 30) {
+                println!("HANG engine=run input=\"{}\" hex={} (no progress for 20 s, and 30 s when re-run alone)", show(&x), hex(&x));
+                std::process::exit(3);
+            }
         },
     );
     let mut lex_execs = 0u64;
@@ -362,8 +377,11 @@ fn main() {
         20,
         |p, k| {
             let x = lex::case_of(SIGMA, lex2_len, p, k);
-            println!("HANG engine=run input=\"{}\" hex={} (no progress for 20 s)", show(&x), hex(&x));
-            std::process::exit(3);
+            let x2 = x.clone();
+            if par::confirm_hang(move || { run_case(&x2, Wk::Rec(usize::MAX)); }, 30) {
+                println!("HANG engine=run input=\"{}\" hex={} (no progress for 20 s, and 30 s when re-run alone)", show(&x), hex(&x));
+                std::process::exit(3);
+            }
         },
     );
     let mut lex2_execs = 0u64;
@@ -387,8 +405,11 @@ fn main() {
         20,
         |p, k| {
             let x = lex::case_of(lex::SIGMA_ALT, lex3_len, p, k);
-            println!("HANG engine=run input=\"{}\" hex={} (no progress for 20 s)", show(&x), hex(&x));
-            std::process::exit(3);
+            let x2 = x.clone();
+            if par::confirm_hang(move || { run_case(&x2, Wk::Heapless(8)); }, 30) {
+                println!("HANG engine=run input=\"{}\" hex={} (no progress for 20 s, and 30 s when re-run alone)", show(&x), hex(&x));
+                std::process::exit(3);
+            }
         },
     );
     let mut lex3_execs = 0u64;
@@ -479,6 +500,47 @@ fn main() {
             }
         }
     }
+    // (a4) lexeme strings on the tree with long / short forms and an optional node
+    let lexeme_len = if thorough { 5 } else { 4 };
+    struct LexiW {
+        groups: Groups,
+        execs: u64,
+    }
+    impl Visitor for LexiW {
+        fn visit(&mut self, x: &[u8], _n: usize, _l: usize) {
+            for cap8 in [true, false] {
+                let mut m = mc::ifaces::Lexi;
+                let o = if cap8 {
+                    let mut w: heapless::Vec<u8, 8> = heapless::Vec::new();
+                    run_on(&mut m, x, &mut w, Pattern::NONE)
+                } else {
+                    let mut w = RecW::unbounded();
+                    run_on(&mut m, x, &mut w, Pattern::NONE)
+                };
+                self.execs += 1;
+                if let Some((kind, detail)) = judge_run(&o) {
+                    let feat = vec![("engine", "run-lexi".to_string()), ("kind", kind.to_string()), ("detail", detail.clone())];
+                    self.groups.add("crash-freedom", &feat, (x.len(), x), || {
+                        (json!({"engine": "run-lexi", "input": hex(x), "cap8": cap8}), format!("run(\"{}\") on the Lexi interface: {kind} {detail}", show(x)))
+                    });
+                }
+            }
+        }
+    }
+    let ws = lex::sweep(lex::SIGMA_LEXEME, lexeme_len, args.threads, args.seed, || LexiW { groups: Groups::new(), execs: 0 }, |_, _, _| {}, 20, |p, k| {
+        let x = lex::case_of(lex::SIGMA_LEXEME, lexeme_len, p, k);
+        let x2 = x.clone();
+        if par::confirm_hang(move || { let mut m = mc::ifaces::Lexi; let mut w = RecW::unbounded(); run_on(&mut m, &x2, &mut w, Pattern::NONE); }, 30) {
+            println!("HANG engine=run-lexi input=\"{}\" hex={} (no progress for 20 s, and 30 s when re-run alone)", show(&x), hex(&x));
+            std::process::exit(3);
+        }
+    });
+    let mut lexeme_execs = 0u64;
+    for w in ws {
+        out.groups.merge(w.groups);
+        lexeme_execs += w.execs;
+    }
+
     // (b'') very long numeric fields (1..=40 digits in every numeric position) on every parameter type
     let mut long_execs = 0u64;
     {
@@ -556,12 +618,22 @@ fn main() {
             },
             30,
             |p, _| {
-                println!(
-                    "HANG engine=process stream=\"{}\" hex={} (no progress for 30 s)",
-                    show(all[p].0),
-                    hex(all[p].0)
+                let (stream, ns) = (all[p].0.clone(), all[p].1.clone());
+                let confirmed = par::confirm_hang(
+                    move || {
+                        let mut w = EnvW { groups: Groups::new(), execs: 0, streams: 0, distinct: Distinct::default(), hook_calls: 0, log_overflow: 0 };
+                        env_stream(&mut w, &stream, &ns, full_comp, 2);
+                    },
+                    120,
                 );
-                std::process::exit(3);
+                if confirmed {
+                    println!(
+                        "HANG engine=process stream=\"{}\" hex={} (no progress for 30 s, and 120 s when re-run alone)",
+                        show(all[p].0),
+                        hex(all[p].0)
+                    );
+                    std::process::exit(3);
+                }
             },
         );
         for w in res {
@@ -579,7 +651,7 @@ fn main() {
     if cfg!(microscpi_verif) && hook_calls == 0 {
         out.machinery_errors.push("hook was never called".into());
     }
-    let total = lex_execs + lex2_execs + lex3_execs + cap_execs + many_execs + long_execs + env_execs;
+    let total = lex_execs + lex2_execs + lex3_execs + lexeme_execs + cap_execs + many_execs + long_execs + env_execs;
     out.cov("states", lex_cases + lex3_cases + msgs.len() as u64 + env_streams);
     out.cov("transitions", total);
     out.cov("traces_validated_against_impl", total);
@@ -600,6 +672,7 @@ fn main() {
             "lex_run": {"max_tokens": lex_len, "writers": lex_writers.iter().map(|w| w.json()).collect::<Vec<_>>(), "strings": lex_cases, "executions": lex_execs},
             "lex_run_other_writers": {"max_tokens": lex2_len, "writers": writers2.iter().map(|w| w.json()).collect::<Vec<_>>(), "executions": lex2_execs},
             "lex_run_second_alphabet": {"alphabet": lex::sigma_alt_json(), "max_tokens": lex3_len, "writers": lw3.iter().map(|w| w.json()).collect::<Vec<_>>(), "strings": lex3_cases, "executions": lex3_execs},
+            "lexeme_strings_on_lexi": {"alphabet": lex::sigma_lexeme_json(), "max_tokens": lexeme_len, "executions": lexeme_execs},
             "long_numeric_fields": {"digits": "1..=40 in mantissa, fraction, exponent, radix literals, block length", "parameter_types": 15, "executions": long_execs},
             "many_parameters": {"headers": 9, "literal_kinds": 6, "parameters": "0..=16", "executions": many_execs},
             "capacity_sweep": {"messages": msgs.len(), "capacities": "recorder 0..=64, heapless {0,1,2,8,9,16,41,64}", "executions": cap_execs},
